@@ -425,7 +425,11 @@ func (it *interp) execInstr(s *state, f frameID, fn *ssa.Function, in ssa.Instru
 				if !ok {
 					return it.freshRep(d, f, x, x.Type())
 				}
-				return it.load(d, f, a, x.Type(), x)
+				r := it.load(d, f, a, x.Type(), x)
+				if g, isG := x.X.(*ssa.Global); isG && IsErrorType(x.Type()) && it.sentinel(g) {
+					r.isnil = lin.Const(0) // error sentinel initialised once with errors.New and never reassigned
+				}
+				return r
 			})
 		default:
 			set(x, func(d *disjunct) rep { return it.freshRep(d, f, x, x.Type()) })
@@ -586,4 +590,34 @@ func (it *interp) execSlice(s *state, f frameID, fn *ssa.Function, x *ssa.Slice)
 		}
 		d.vals[valKey{f, x}] = r
 	}
+}
+
+// sentinel reports whether global g is only ever stored in its package initialiser.
+func (it *interp) sentinel(g *ssa.Global) bool {
+	if v, ok := it.sentinels[g]; ok {
+		return v
+	}
+	ok := true
+	for _, fn := range it.prog.Funcs {
+		for _, b := range fn.Blocks {
+			for _, in := range b.Instrs {
+				if st, isSt := in.(*ssa.Store); isSt && st.Addr == g {
+					ok = false
+				}
+			}
+		}
+	}
+	// the store in the synthetic package initialiser (not in prog.Funcs) is the only one allowed
+	stored := false
+	if init := g.Pkg.Func("init"); init != nil {
+		for _, b := range init.Blocks {
+			for _, in := range b.Instrs {
+				if st, isSt := in.(*ssa.Store); isSt && st.Addr == g {
+					stored = true
+				}
+			}
+		}
+	}
+	it.sentinels[g] = ok && stored
+	return ok && stored
 }
